@@ -12,6 +12,9 @@ Case:  kind cap ilen ini... ops...
                          2 v sl suf.. -> "%d";  3 sl suf.. -> "%%";  4 c sl suf.. -> "%c"
        7 n c             resize(n, c)
        8                 clear()
+       9 m off n         append a slice of the builder's OWN current text (off, n clamped to the text): m = 0 append(c_str()+off, n);
+                         1 append(toSpan().first+off, n);  2 append(c_str()+off) (n ignored, up to the first NUL);
+                         3 append(caller's string .data()+off, n) (kind 1; other kinds as m = 0)
 Observation: one record after the constructor and after every op:
   exc size bytes.. terminator maxSize(-1 unbounded) errno==ERANGE guards-intact
 The implementation runs every case twice on fresh builders: the records of a CLEAN pass (errno = 0 before every call; this
@@ -38,6 +41,10 @@ RULE = ('cases = (kind in {sbo, std::string, fixed array, spilling array}, capac
         'std::string, fixed and spilling arrays of capacity 0/1/8/64/L..L+2) and every flavour (bytes, cstr, run, resize, literal format, '
         '%s, literal+%s, %d, %c, %%), and 2^16/2^31/2^32/2^63 + room (+-1) runs/resizes on fixed arrays; the random stream draws a length '
         'from {255..257, 300, 319, 320, 511..513, 575, 576, 256+room(+-1), 512+room(+1)} with probability 0.06; '
+        'appends whose SOURCE is the builder\'s own text (op 9: append(c_str()+off, n) / toSpan() / append(c_str()+off) / the caller\'s str.data()): stream '
+        '"self-append" (~1700 cases: caller\'s string of 1..300 chars around the SSO limit 15/16 and the doubling points of the capacity, inline builders that stay '
+        'inline / fill up / spill, builders that already spilled, spilling and fixed arrays; slices = whole text, halves, one char, room-1..room+1 of the current '
+        'storage) and 10 % of the operations of the random stream; '
         'EVERY case is run twice on the implementation: with errno = 0 before each call (compared with the model, errno flag judged) and with a '
         'STALE errno = ERANGE before the constructor and each call (text, size, terminator, maxSize, canaries, exceptions judged; errno flag not); '
         'non-trivial = at least one op changed the text or was truncated; distinct = distinct case tuples')
@@ -49,7 +56,9 @@ TRUSTED_BASE = ['std::string (append/resize/reserve/c_str/operator[]) modelled a
 ASSUMPTIONS = ['memory does not run out (builders that may spill: text lengths far below std::string::max_size())',
                'a formatted expansion is shorter than INT_MAX and its literal parts contain neither % nor NUL',
                'LP64 layout: the pointer / size_t members occupy cells [0,24) of the 64-byte union',
-               'size()==strlen(c_str()) is claimed only when no NUL byte was appended (resize(n) with the default fill appends NULs)']
+               'size()==strlen(c_str()) is claimed only when no NUL byte was appended (resize(n) with the default fill appends NULs)',
+               'append(ptr, n) / append(ptr) may be given (part of) the builder\'s own text (value semantics, exercised and proved); an argument of appendFormat '
+               'must not alias the builder\'s text (printf contract: the output range starts at the text\'s terminating NUL)']
 ALLOWED_AXIOMS = []
 
 
@@ -101,6 +110,11 @@ def decode(c):
                 break
         elif o == 8:
             ops.append((8,))
+        elif o == 9:
+            if p + 3 > len(c):
+                break
+            ops.append((9, c[p], c[p + 1], c[p + 2]))
+            p += 3
         else:
             break
     return kind, cap, ini, ops
@@ -125,6 +139,8 @@ def encode(kind, cap, ini, ops):
                 e += [len(o[4])] + list(o[4])
         elif o[0] == 8:
             e += [8]
+        elif o[0] == 9:
+            e += [9, o[1], o[2], o[3]]
     return e
 
 
@@ -177,6 +193,15 @@ class Shadow:
         self.text += piece[:r]
         return len(piece) > r
 
+    def own_slice(self, o):
+        """the bytes a self-append (9, m, off, n) passes in: a slice of the text as it is BEFORE the call"""
+        sz = len(self.text)
+        off = min(max(o[2], 0), sz)
+        if o[1] == 2:
+            return cut0(self.text[off:])
+        n = min(max(o[3], 0), sz - off)
+        return list(self.text[off:off + n])
+
     def apply(self, o):
         """returns (exception code, truncated?)"""
         k = o[0]
@@ -196,6 +221,8 @@ class Shadow:
             if b is not None:
                 cut = self.append(b) or cut
             return 0, cut
+        if k == 9:
+            return 0, self.append(self.own_slice(o))
         if k in (7, 8):
             n, c = (o[1] % TWO64, o[2] % 256) if k == 7 else (0, 0)
             if n > len(self.text):
@@ -249,7 +276,7 @@ def obs_equal(case, impl, model):
     return len(impl) > m and impl[m] == STALE_MARK and impl[:m] == model
 
 
-OPN = {1: 'append', 2: 'append-cstr', 3: 'append-run', 4: 'append-int', 5: 'append-uint', 6: 'format', 7: 'resize', 8: 'clear', 0: 'ctor'}
+OPN = {1: 'append', 2: 'append-cstr', 3: 'append-run', 4: 'append-int', 5: 'append-uint', 6: 'format', 7: 'resize', 8: 'clear', 9: 'append-self', 0: 'ctor'}
 KINDN = {0: 'sbo', 1: 'string', 2: 'fixed', 3: 'spill'}
 
 
@@ -345,6 +372,9 @@ def describe(c):
                                                     _s(o[4]) if len(o[4]) <= 24 else '<%d chars>' % len(o[4]), arg))
         elif o[0] == 7:
             ps.append('resize(%d,%r)' % (o[1] % TWO64, chr(o[2] % 256)))
+        elif o[0] == 9:
+            src = {1: 'sb.toSpan().first', 3: 'str.data()' if kind == 1 else 'sb.c_str()'}.get(o[1], 'sb.c_str()')
+            ps.append('append(%s+%d)' % (src, max(o[2], 0)) if o[1] == 2 else 'append(%s+%d,%d) [own text, clamped]' % (src, max(o[2], 0), max(o[3], 0)))
         else:
             ps.append('clear()')
     return hd + ': ' + '; '.join(ps) + '   [run twice: errno = 0 / stale errno = ERANGE before every call]'
@@ -407,6 +437,24 @@ class Gen:
             return (6, pre, 3, None, self.piece(max(0, L - 1)))
         return (6, pre, 4, r.choice([65, 122, 255, 1, 37]), self.piece(max(0, L - 1)))
 
+    def self_op(self, sh, kind, room, spilled):
+        """append a slice of the builder's own text; lengths aimed at the room that is left (an inline / array builder
+        that spills, a std::string that reallocates) and at the whole text"""
+        r = self.rnd
+        used = len(sh.text)
+        m = r.choice([0, 0, 1, 2, 3])
+        cand = [1, used, used, used // 2, used - 1]
+        if room is not None:
+            cand += [room - 1, room, room + 1, room + 2]
+        n = min(max(r.choice(cand), 0), used)
+        off = r.choice([0, 0, used - n, r.randint(0, used - n)])
+        if r.random() < 0.05:
+            off, n = r.choice([(-1, used + 3), (used, 1), (used + 5, 2), (0, -1), (1, 2 ** 40)])   # clamped by the caller
+        o = (9, m, off, n)
+        if kind == 0 and not spilled and not SBO_SELF_SPILL and room is not None and len(sh.own_slice(o)) > room:
+            o = (9, 0, 0, min(room, used))
+        return o
+
     def case(self, kind, cap, nops, flavour):
         r = self.rnd
         ini = self.piece(r.choice([0, 0, 1, 5, 62, 63, 64, 100])) if kind == 1 else []
@@ -426,6 +474,13 @@ class Gen:
             if room is not None and room < 0:
                 room = None
             big = used < 450
+            if used and r.random() < 0.10:
+                o = self.self_op(sh, kind, room, spilled)
+                sh.apply(o)
+                if room is not None and kind in (0, 3) and len(sh.text) > used + room:
+                    spilled = True
+                ops.append(o)
+                continue
             x = r.random()
             if flavour == 'format':
                 x = 0.5 + x * 0.3
@@ -616,6 +671,105 @@ def length_wrap_cases():
     return out
 
 
+# ---- appends whose source is the builder's own text ('self-append') ---------------------------------------------
+# An append must have value semantics: the bytes the argument denotes when the call is made.  The interesting cases are
+# those in which the append moves or overwrites the storage the argument points into: an inline builder that spills (the
+# union is overwritten by the string pointer), a std::string (the caller's, or the one a builder owns after spilling) that
+# reallocates - around the SSO limit 15/16 and at every doubling of the capacity -, a caller's array that spills.
+SBO_SELF_SPILL = True     # an INLINE builder whose self-append makes it spill: before /repo fbd6917 it copied pointer bytes
+                          # (the union is overwritten by the string pointer before the memcpy; patches/C17-self-append-spill.*)
+
+
+def string_cap(cap, size):
+    """libstdc++ std::string capacity after growing to `size` chars"""
+    return cap if size <= cap else max(size, 2 * cap)
+
+
+def self_append_cases():
+    g = Gen(random.Random(19))
+    out = []
+    seen = set()
+
+    def add(kind, cap, ini, ops, tag):
+        c = encode(kind, cap, ini, ops)
+        if tuple(c) not in seen:
+            seen.add(tuple(c))
+            out.append((c, tag))
+
+    def flavours(kind, used, off, n):
+        fl = [(9, 0, off, n), (9, 1, off, n)]
+        if kind == 1:
+            fl.append((9, 3, off, n))
+        if off + n >= used:
+            fl.append((9, 2, off, 0))
+        return fl
+
+    def slices(used, room):
+        """(off, n) pairs: whole text, halves, one char, and lengths at room-1 / room / room+1 of the current storage"""
+        sl = {(0, used), (0, 1), (used - 1, 1), (used // 2, used - used // 2), (0, used // 2), (1, used - 1)}
+        if room is not None:
+            for n in (room - 1, room, room + 1, room + 2):
+                if 0 < n <= used:
+                    sl.add((0, n))
+                    sl.add((used - n, n))
+        return sorted((o, n) for o, n in sl if n > 0 and o >= 0)
+
+    tail = [(1, [35]), (4, 42)]
+    # caller's std::string: the harness copies ini, capacity = max(15, len)
+    for L in (1, 7, 8, 10, 14, 15, 16, 17, 24, 30, 31, 32, 40, 63, 64, 100, 300):
+        ini = g.piece(L)
+        cap0 = max(15, L)
+        for off, n in slices(L, cap0 - L if cap0 > L else None):
+            for o in flavours(1, L, off, n):
+                add(1, 0, ini, [o] + tail, 'string')
+        # one foreign char first: the string reallocates (doubling), then self-appends that just fit / just do not
+        c1 = string_cap(cap0, L + 1)
+        for off, n in slices(L + 1, c1 - (L + 1)):
+            for o in flavours(1, L + 1, off, n)[:2]:
+                add(1, 0, ini, [(1, g.piece(1)), o] + tail, 'string-doubling')
+        # twice in a row: the second self-append reads the buffer the first one allocated
+        add(1, 0, ini, [(9, 0, 0, L), (9, 0, 0, 2 * L), (9, 2, L, 0)] + tail, 'string-doubling')
+        add(1, 0, ini, [(9, 2, 0, 0), (9, 1, L // 2, L), (7, 3, 0), (9, 0, 0, 3)], 'string-doubling')
+    # self-contained builder: inline (63 chars) and after it spilled
+    for u in (1, 7, 8, 9, 20, 31, 32, 40, 62, 63):
+        pre = [(1, g.piece(u))]
+        for off, n in slices(u, SBO - u):
+            if n <= SBO - u or SBO_SELF_SPILL:
+                for o in flavours(0, u, off, n):
+                    add(0, 0, [], pre + [o] + tail, 'sbo-inline' if n <= SBO - u else 'sbo-spilling')
+    for u in (64, 65, 70, 100, 127, 128, 129):
+        pre = [(1, g.piece(u))]            # spills: capacity = u (reserve(used + n)); every further append reallocates
+        for off, n in slices(u, None):
+            for o in flavours(0, u, off, n):
+                add(0, 0, [], pre + [o] + tail, 'sbo-spilled')
+        add(0, 0, [], pre + [(9, 0, 0, u), (9, 0, u - 1, u + 1), (9, 2, 2 * u, 0)] + tail, 'sbo-spilled')
+        k = string_cap(u, u + 1) - (u + 1)       # after one more char the capacity doubled: room k
+        for n in (k - 1, k, k + 1):
+            if 0 < n <= u + 1:
+                add(0, 0, [], pre + [(1, g.piece(1)), (9, 0, 0, n), (9, 1, 1, n)] + tail, 'sbo-spilled')
+    # caller's array that may spill: source in the caller's array while the builder switches to a std::string, and afterwards
+    for cap in (2, 8, 16, 17, 33, 64):
+        for u in sorted({1, cap // 2, cap - 2, cap - 1}):
+            if u < 1 or u > cap - 1:
+                continue
+            pre = [(1, g.piece(u))]
+            for off, n in slices(u, cap - 1 - u):
+                for o in flavours(3, u, off, n):
+                    add(3, cap, [], pre + [o] + tail, 'spill-array')
+            add(3, cap, [], pre + [(9, 0, 0, u), (9, 0, 0, 2 * u), (9, 2, 0, 0), (9, 1, 3, 4 * u)] + tail, 'spill-array')
+    # caller's fixed array: fits / exact / cut (ERANGE), source and destination in the same array
+    for cap in (2, 3, 8, 16, 64, 70):
+        for u in sorted({1, (cap - 1) // 2, cap - 2, cap - 1}):
+            if u < 1 or u > cap - 1:
+                continue
+            pre = [(1, g.piece(u))]
+            for off, n in slices(u, cap - 1 - u):
+                for o in flavours(2, u, off, n):
+                    add(2, cap, [], pre + [o] + tail, 'fixed')
+            add(2, cap, [], pre + [(9, 0, 0, u), (9, 2, 0, 0), (8,), (9, 0, 0, 1), (1, g.piece(2)), (9, 1, 1, 1)], 'fixed')
+    return out
+
+
 def gen(seed, tier):
     rnd = random.Random(seed * 1000003 + 17)
     total = {'quick': 6000, 'thorough': 300000, 'search': 6000}.get(tier, 6000)
@@ -623,6 +777,9 @@ def gen(seed, tier):
     wraps = length_wrap_cases()
     out += [(c, {'kind': 'length-wraps'}) for c in wraps]
     total += len(wraps)               # on top of the random stream, not instead of it
+    selfs = self_append_cases()
+    out += [(c, {'kind': 'self-append-' + k}) for c, k in selfs]
+    total += len(selfs)
     g = Gen(rnd)
     while len(out) < total:
         kind = rnd.choice([0, 1, 2, 2, 2, 3, 3])
@@ -663,7 +820,8 @@ def mutate(case, rnd):
 LEVEL_TEXT = ('Machine-checked refinement proof (Coq): a cell-level model of StringBuilder (64-byte union with the tag in cell 63, '
               'caller array with out-of-range stores as Fault, std::string and vsnprintf modelled) refines an abstract builder '
               '(kind, capacity, text) for every operation sequence, all four kinds and every capacity >= 0; the fixed kind never '
-              'faults, keeps the longest prefix that fits and raises ERANGE iff something was cut; the others never lose a byte. '
+              'faults, keeps the longest prefix that fits and raises ERANGE iff something was cut; the others never lose a byte; '
+              'an append whose source is a slice of the builder\'s own text behaves in every reachable state exactly like a foreign append of the same bytes. '
               'The model is tied to the code by differential correspondence (extracted model vs. ASan/UBSan build of the real class, '
               'caller arrays between canary blocks) plus an independent shadow-string oracle on the implementation.')
 LEVEL_NOTE = ('Trusted: Coq kernel/vm_compute, extraction+driver (sample cross-checked by vm_compute), harness, translator; '
